@@ -128,6 +128,14 @@ func c14R14(p *core.Program, r *core.Report, fs []*core.Func) {
 							if v := core.VarOf(info, c.Fun); v != nil && (v == yield || isYieldParam(f.Root(), v) || reportsStop(p, f.Root(), v, 0)) {
 								own = true
 							}
+							// a function of the package that forwards a sequence to the yield it is handed and reports whether to go on
+							if h := p.FuncOfObj(core.CalleeFunc(info, c)); h != nil && h.Decl != nil && forwardsAndReportsStop(h) {
+								for _, a := range c.Args {
+									if av := core.VarOf(info, a); av != nil && (av == yield || isYieldParam(f.Root(), av)) {
+										own = true
+									}
+								}
+							}
 						}
 					}
 					if !own {
@@ -239,6 +247,52 @@ func reportsStop(p *core.Program, root *core.Func, v *types.Var, depth int) bool
 		for _, fct := range g.FactsAt(g.PointOf(ret)) {
 			if c, isCall := ast.Unparen(fct.Cond).(*ast.CallExpr); isCall && !fct.Val && fct.Tag == nil {
 				if cv := core.VarOf(info, c.Fun); cv != nil && (isYieldParam(root, cv) || reportsStop(p, root, cv, depth+1)) {
+					behind = true
+				}
+			}
+		}
+		if !behind {
+			good = false
+		}
+		return true
+	})
+	return good && nFalse > 0
+}
+
+// forwardsAndReportsStop: a declared function with a yield parameter whose every `return false` is behind that yield
+// having answered false and whose other returns are `return true`.
+func forwardsAndReportsStop(h *core.Func) bool {
+	if h.Body == nil || h.Type.Results == nil || len(h.Type.Results.List) != 1 {
+		return false
+	}
+	info := h.Info()
+	g := graph(h)
+	good, nFalse := true, 0
+	ast.Inspect(h.Body, func(n ast.Node) bool {
+		if _, isLit := n.(*ast.FuncLit); isLit {
+			return false
+		}
+		ret, isRet := n.(*ast.ReturnStmt)
+		if !isRet {
+			return true
+		}
+		if len(ret.Results) != 1 {
+			good = false
+			return true
+		}
+		tv, isConst := info.Types[ret.Results[0]]
+		if !isConst || tv.Value == nil {
+			good = false
+			return true
+		}
+		if tv.Value.String() == "true" {
+			return true
+		}
+		nFalse++
+		behind := false
+		for _, fct := range g.FactsAt(g.PointOf(ret)) {
+			if c, isCall := ast.Unparen(fct.Cond).(*ast.CallExpr); isCall && !fct.Val && fct.Tag == nil {
+				if cv := core.VarOf(info, c.Fun); cv != nil && isYieldParam(h, cv) {
 					behind = true
 				}
 			}
